@@ -5,8 +5,8 @@
    and IO/Iscas.v over Gen/BlifTables.v, which is regenerated from
    /repo/pyrtl/importexport.py on every run. *)
 From Coq Require Import ZArith List Bool String.
-From PyRTL Require Import IO.BlifSyntax IO.BlifSem Gen.BlifTables IO.BlifImport IO.Iscas
-                          IO.BlifProofs IO.BlifHierProofs IO.BlifIscasProofs.
+From PyRTL Require Import IO.BlifSyntax IO.BlifSem Gen.BlifTables Gen.BlifNames IO.BlifImport IO.BlifLow IO.Iscas
+                          IO.BlifProofs IO.BlifHierProofs IO.BlifLowProofs IO.BlifIscasProofs.
 Import ListNotations.
 Open Scope Z_scope.
 
@@ -93,6 +93,21 @@ Theorem C12_hier_model_refines_blif : forall fuel lib top c fm,
   /\ blif_init_ok fm (slookup (c_init c)).
 Proof. exact hier_import_correct. Qed.
 Print Assumptions C12_hier_model_refines_blif.
+
+(* The name-resolution layer (twire, the per-Subcircuit dictionaries REGENERATED from class Subcircuit,
+   registers filed under Q + "_reg", the intermediate wire of every top-level output, fresh tables per
+   .subckt instance), modelled over numbered wires in IO/BlifLow.v: the imported block -- its wires, nets,
+   registers and reset values, the order of its ports -- is literally the same whatever the nets of the top
+   model are called: for EVERY injective renaming of them, every library of sub-models, every nesting depth,
+   and whatever keys the registers are filed under on either side (rn, rn' arbitrary).  A net may therefore be
+   called <Q>_reg, tmp7, clk ... without changing the function (N45 / the BLIF side of N44 as a theorem; the
+   proof breaks if a Subcircuit method writes a non-net key into the table twire reads). *)
+Theorem C12_import_invariant_under_renaming : forall rho,
+  (forall a b, sig_eqb (rho a) (rho b) = sig_eqb a b) ->
+  forall fuel rn rn' lib tid top,
+  low_import fuel rn' lib tid (gren_model rho top) = low_import fuel rn lib tid top.
+Proof. exact low_import_rename_invariant. Qed.
+Print Assumptions C12_import_invariant_under_renaming.
 
 (* vector ports under merge_io_vectors=True: Output a = concat_list([a[0], a[1], ..])
    carries bit i of a on position i and stays in range; Input a feeds a[i] with bit i *)
@@ -234,3 +249,24 @@ Example C12_example_empty_cover :
   /\ extract_cover [L 0; L 1; L 2] [] = Some (L 2, BConst false)
   /\ cover_sem [] [true; true] = false.
 Proof. vm_compute. repeat split; reflexivity. Qed.
+
+(* the name-resolution model on the two-level hierarchy above: it builds a block over 30-odd numbered wires
+   that computes the same trace as the name-level model; renaming every net of the top model (an injective
+   renaming: x |-> I 7 x) gives the identical block; and a net literally called <Q>_reg (regname maps the latch
+   output L 3 of ex_fan to its net L 2) does not disturb it *)
+Example C12_example_name_resolution :
+  (forall a b, sig_eqb (I 7 a) (I 7 b) = sig_eqb a b)
+  /\ match low_import 5 (regname_of []) ex_lib 1 ex_top with
+     | Some c =>
+         let inss := map (fun v x => match x with L i => Z.testbit v i | _ => false end) [3; 3; 1; 3] in
+         c_run 60 c (c_init c) inss = [[false; true]; [true; true]; [false; true]; [false; true]]
+         /\ low_import 5 (regname_of [(1, [(L 2, L 0)])]) ex_lib 1 (gren_model (I 7) ex_top) = Some c
+     | None => False
+     end
+  /\ match low_import 3 (regname_of [(0, [(L 3, L 2)])]) [] 0 ex_fan, import_flat ex_fan with
+     | Some c, Some c' =>
+         let inss := map (fun v x => match x with L i => Z.testbit v i | _ => false end) [1; 3; 2] in
+         c_run 30 c (c_init c) inss = c_run 6 c' (c_init c') inss
+     | _, _ => False
+     end.
+Proof. split; [reflexivity|]. vm_compute. repeat split; reflexivity. Qed.
